@@ -621,8 +621,15 @@ func (w *Writer) writeAccess(access ir.ExprAccess) error {
 
 	if baseHandle := w.getExpressionTypeHandle(access.Base); baseHandle != nil {
 		if _, ok := w.arrayWrappers[*baseHandle]; ok {
+			needParens := w.needsParensInContext(access.Base)
+			if needParens {
+				w.write("(")
+			}
 			if err := w.writeExpression(access.Base); err != nil {
 				return err
+			}
+			if needParens {
+				w.write(")")
 			}
 			w.write(".inner[")
 			if err := w.writeAccessIndex_restricted(access.Base, access.Index); err != nil {
@@ -648,8 +655,16 @@ func (w *Writer) writeAccess(access ir.ExprAccess) error {
 		}
 	}
 
+	// Wrap in parens if base is a binary/select expression (same rule as writeAccessIndex).
+	needParens := w.needsParensInContext(access.Base)
+	if needParens {
+		w.write("(")
+	}
 	if err := w.writeExpression(access.Base); err != nil {
 		return err
+	}
+	if needParens {
+		w.write(")")
 	}
 	w.write("[")
 	if err := w.writeAccessIndex_restricted(access.Base, access.Index); err != nil {
